@@ -72,6 +72,11 @@ theorem list_guards :
 theorem qm_next_is_the_strategy :
     guardsOf "queueManager.next" = [] ∧
     callsOf "queueManager.next" = ["GetRoundRobinItem", "GetMaxLenItem", "GetMinLenItem"] := by decide
+/-- the codec model takes encoding/json as its parameter: Json() is one Marshal of the envelope, parseToJob one Unmarshal; a
+    hand-written encoder or decoder path is reported -/
+theorem codec_calls :
+    callsOf "job.Json" = ["ID", "Status", "Marshal"] ∧ guardsOf "job.Json" = [] ∧
+    callsOf "parseToJob" = ["Unmarshal", "Errorf", "newJob", "Store", "Store", "Store", "Store", "Store", "Errorf"] ∧ guardsOf "parseToJob" = ["if:err!=nil"] := by decide
 theorem manager_guards :
     guardsOf "Manager.GetRoundRobinItem" = ["if:len(m.items)==0", "if:item.Len()>0", "if:m.roundRobinIndex==start"] ∧
     guardsOf "Manager.GetMaxLenItem" = ["if:len(m.items)==0", "if:maxItem.Len()==0"] ∧
